@@ -10,7 +10,8 @@ ASSUMPTIONS = ASSUME_SESSION + ["partial in the schedules dimension: the prompt 
                                 "the crash dump of C02 (screen stack + traceback) is excluded by name; screens' contents are titles and texts (list containers and forced widths are covered by C13's width clause)"]
 RULE = ("tame/app sessions at configured widths 1..120 with long titles, texts with tabs and other control blanks, long prompts, paging (heights 4..30); oracle on the raw stdout: "
         "no control character that the application's own strings do not contain, every show_all preceded by the two-line separator of exactly the width unless disabled, "
-        "every line (ignoring trailing blanks, outside the crash dump) within the width; the exact byte stream is compared with the model; non-trivial = >= 2 screens drawn")
+        "every line (ignoring trailing blanks, outside the crash dump) within the width; the exact byte stream is compared with the model; non-trivial = >= 2 screens drawn"
+        ' Later rounds: unnumbered lists showing one widget object in several cells.')
 
 TEXTS = [None, "hello", "line\n" * 5, "a\tb\tc " * 6, "word " * 40, "x" * 150, "tab\there\rcr\x0bvt\x0cff", "ünïcödé " * 12, "a-b " * 30, "  leading and trailing  ", "\n\nblank lines\n\n"]
 
